@@ -1430,9 +1430,14 @@ func (interp *Interpreter) cfg(root *node, sc *scope, importPath, pkgName string
 					n.gen = nop
 					n.findex = notInFrame
 					n.typ = c0.typ
-					if _, ok := c1.rval.Interface().(constant.Value); ok {
+					rval := c1.rval
+					if tc := typedNumConst(c1); tc != nil && isComplex(c0.typ.TypeOf()) && !isComplex(rval.Type()) {
+						// A real value is not convertible to a complex one, but a real constant is.
+						rval = reflect.ValueOf(tc)
+					}
+					if _, ok := rval.Interface().(constant.Value); ok {
 						// The representability of the constant in the type is checked above.
-						if n.rval, err = check.convertConst(c1.rval, c0.typ.TypeOf()); err != nil {
+						if n.rval, err = check.convertConst(rval, c0.typ.TypeOf()); err != nil {
 							err = n.cfgErrorf("cannot convert expression of type %s to type %s", c1.typ.id(), c0.typ.id())
 							break
 						}
